@@ -149,7 +149,7 @@ def wleaf(rnd, w, tag, allow_refuse=True):
                 else rnd.randint(2**32, 253402300799999)
             w.put(struct.pack('>Q', v))
             dt = EPOCH + datetime.timedelta(milliseconds=v)
-            return TsApprox(dt, 0 if v < 4294967296000 else 32)
+            return TsApprox(dt, 0)
         v = rnd.choice(REFUSE_POINTS) if rnd.random() < 0.7 \
             else rnd.randint(253402300800000, 2**64 - 1)
         w.put(struct.pack('>Q', v))
